@@ -24,6 +24,10 @@ thread_local! {
     /// already unwinding: a second panic would abort by Rust's rules, whatever the crate does)
     pub static DRFUSE: Cell<u64> = Cell::new(0);
     pub static DRCOUNT: Cell<u64> = Cell::new(0);
+    /// when true (the streams), a third of the dropped `iter_mut` guards are dropped by unwinding out of client code; off in the
+    /// continuation probes: on a queue that a caught panic left inconsistent `Drop for IterMut` may panic (an ordinary,
+    /// allowed panic), and a panic while unwinding is an abort by Rust's rules, which the probes would misread as a crash
+    pub static UNWIND_DROPS: Cell<bool> = Cell::new(true);
     /// number of live `SItem` + `Pri` values (for leak / double-drop detection)
     pub static LIVE: Cell<i64> = Cell::new(0);
     /// total number of drops observed
